@@ -310,6 +310,54 @@ def rule_G5(ctx):
     return r
 
 
+def _index_params(g):
+    """Parameters of a store-level method that end up addressing self._bitarray (as subscript or index argument)."""
+    out = set()
+    ps = set(g.params())
+    for x in own_walk(g.node):
+        idx = None
+        if isinstance(x, ast.Subscript) and ast.unparse(x.value) == 'self._bitarray':
+            idx = x.slice
+        elif isinstance(x, ast.Call) and isinstance(x.func, ast.Attribute) and ast.unparse(x.func.value) == 'self._bitarray' and \
+                x.func.attr in ('__getitem__', '__setitem__', '__delitem__', 'invert') and x.args:
+            idx = x.args[0]
+        if idx is not None:
+            out |= {y.id for y in ast.walk(idx) if isinstance(y, ast.Name) and y.id in ps}
+    # one step through locals built from a parameter (key = slice(*key.indices(..)))
+    for x in own_walk(g.node):
+        if isinstance(x, ast.Assign) and len(x.targets) == 1 and isinstance(x.targets[0], ast.Name) and x.targets[0].id in out:
+            out |= {y.id for y in ast.walk(x.value) if isinstance(y, ast.Name) and y.id in ps}
+    return out
+
+
+def _returns_mirror(g):
+    """A store-level helper whose every result is the mirror of its one argument: offset_slice_indices_lsb0(p, len(self)) or -p - 1."""
+    from .ingest import _lin
+    ps = g.params()[1:]
+    if len(ps) != 1:
+        return False
+    p = ps[0]
+    if any(isinstance(y, ast.Name) and y.id == p and isinstance(y.ctx, ast.Store) for y in own_walk(g.node)):
+        return False
+    rets = [x for x in own_walk(g.node) if isinstance(x, ast.Return)]
+    if not rets:
+        return False
+    for x in rets:
+        v = x.value
+        if v is None:
+            return False
+        if isinstance(v, ast.Call) and isinstance(v.func, ast.Name) and v.func.id == 'offset_slice_indices_lsb0' and len(v.args) == 2 \
+                and isinstance(v.args[0], ast.Name) and v.args[0].id == p and ast.unparse(v.args[1]) == 'len(self)':
+            continue
+        try:
+            if _lin(v) == {p: -1, 1: -1}:
+                continue
+        except Exception:
+            pass
+        return False
+    return True
+
+
 def rule_MIRROR(ctx):
     """One mirror for slices: every store-level lsb0 variant that addresses the underlying bitarray with a slice takes that
     slice from offset_slice_indices_lsb0 (the only place that knows how a stepped window maps: the mirrored slice starts at
@@ -365,11 +413,28 @@ def rule_MIRROR(ctx):
                 return 'bounds of the mirrored slice'
             if isinstance(e, ast.Call) and isinstance(e.func, ast.Name) and e.func.id == 'slice':
                 return None
+            if isinstance(e, ast.Call) and isinstance(e.func, ast.Name) and e.func.id == 'offset_slice_indices_lsb0':
+                return 'mirrored slice'
+            if isinstance(e, ast.Call) and isinstance(e.func, ast.Attribute) and isinstance(e.func.value, ast.Name) and e.func.value.id == 'self' \
+                    and e.func.attr in bs.methods and len(e.args) == 1 and isinstance(e.args[0], ast.Name) and e.args[0].id in params \
+                    and _returns_mirror(bs.methods[e.func.attr]):
+                return 'key mirrored by ' + e.func.attr
             form = _lin(e)
             names = [k for k in form if k != 1 and k in params]
             if len(names) == 1 and form == {names[0]: -1, 1: -1}:       # (len - i - 1 would refuse the negative indices -i - 1 accepts)
                 return 'index mirror -i - 1'
             return None
+        def ok_any(e, line):
+            # a delegated index may be absent (None) on one path: `None if index is None else -index - 1`
+            if isinstance(e, ast.IfExp):
+                a, b = ok_any(e.body, line), ok_any(e.orelse, line)
+                return f'{a} / {b}' if a and b else None
+            if isinstance(e, ast.Constant) and e.value is None:
+                return 'absent'
+            if isinstance(e, ast.Attribute) and isinstance(e.value, ast.Name) and e.value.id in mirrored and e.attr in ('start', 'stop', 'step'):
+                return 'bounds of the mirrored slice'
+            return ok_index(e, line)
+        accesses = []
         for x in own_walk(f.node):
             idx = None
             if isinstance(x, ast.Subscript) and ast.unparse(x.value) == 'self._bitarray':
@@ -377,10 +442,20 @@ def rule_MIRROR(ctx):
             elif isinstance(x, ast.Call) and isinstance(x.func, ast.Attribute) and ast.unparse(x.func.value) == 'self._bitarray' and \
                     x.func.attr in ('__getitem__', '__setitem__', '__delitem__', 'invert') and x.args:
                 idx = x.args[0]
-            if idx is None:
+            elif isinstance(x, ast.Call) and isinstance(x.func, ast.Attribute) and isinstance(x.func.value, ast.Name) and x.func.value.id == 'self' \
+                    and x.func.attr.endswith('_msb0') and x.func.attr in bs.methods:
+                # handing over to the msb0 sibling: what arrives in its index parameters must already be mirrored
+                g = bs.methods[x.func.attr]
+                gp = g.params()[1:]
+                for i, a in enumerate(x.args):
+                    if i < len(gp) and gp[i] in _index_params(g):
+                        accesses.append((x, a, True))
                 continue
+            if idx is not None:
+                accesses.append((x, idx, False))
+        for x, idx, delegated in accesses:
             n += 1
-            how = ok_index(idx, x.lineno)
+            how = ok_any(idx, x.lineno) if delegated else ok_index(idx, x.lineno)
             if how:
                 r.ok(f'{f.key}:{norm(x)}', {'instance': f.key, 'access': norm(x)[:80], 'index': how})
             else:
